@@ -343,6 +343,7 @@ func (r *runningRoutine) execute(
 					dur := r.r.retryBo.NextBackOff()
 					if dur != backoff.Stop {
 						r.deferRetry = time.AfterFunc(dur, func() {
+							verifhook.Point("routine.timer.retry", r.r)
 							r.r.bcast.HoldLock(func(broadcast func(), getWaitCh func() <-chan struct{}) {
 								if r.r.ctx != nil && r.r.routine == r && r.exited {
 									r.start(r.r.ctx, r.exitedCh, true)
